@@ -12,7 +12,7 @@ import (
 
 func init() {
 	register(&Rule{ID: "DT11", Min: 1, Run: ruleDT11,
-		Doc: "replay-reads-no-ambient-state: the reader and the replay (readEvents, replayEvents and everything they call) read nothing but the log: no clock (time.Now/Since/Until), no time zone of the process (time.Local, ParseInLocation/LoadLocation, Time.Local, Time.In with a non-UTC location), no environment (os.Getenv/LookupEnv/Environ), host or user identity, working directory, or random source. A replay that consults any of these shows different states for the same log to two processes (two time zones, two users), which is what `the same log always produces byte-identical output` excludes"})
+		Doc: "replay-reads-no-ambient-state: the reader, the replay, the loader family (loadGraph and what it is split into) and what is decided from the graph (the readiness predicates, the candidate list claim chooses from) - and everything they call - read nothing but the log: no clock (time.Now/Since/Until), no time zone of the process (time.Local, ParseInLocation/LoadLocation, Time.Local, Time.In with a non-UTC location), no environment (os.Getenv/LookupEnv/Environ), host or user identity, working directory, or random source. A replay that consults any of these shows different states for the same log to two processes (two time zones, two users), which is what `the same log always produces byte-identical output` excludes; a setting consulted there (a claim TTL, an as-of time, a list limit) additionally makes two agents on one store disagree about what is ready, and compaction writes the configured view back as history. Functions that only talk to stderr (trace helpers) are exempt"})
 }
 
 var ambientCalls = map[string]string{
@@ -30,7 +30,29 @@ func ruleDT11(c *Ctx) {
 		return
 	}
 	unit := map[*ssa.Function]bool{}
-	for _, root := range []*ssa.Function{re, rd} {
+	roots := []*ssa.Function{re, rd}
+	// ... and the loader family (loadGraph and what it is split into): what every command decides from and every view
+	// shows is what the loader hands back, so a setting or a clock consulted there (events dropped "as of", claims expired
+	// after a TTL) makes the same log mean different things to different processes
+	if lg := c.F.Anchors["loadGraph"]; lg != nil {
+		roots = append(roots, lg)
+	}
+	for _, f := range c.Fns {
+		if c.loaderKind(f) != "" || c.eventsLoaderKind(f) != "" {
+			roots = append(roots, f)
+		}
+	}
+	// ... and what is decided from the graph: the readiness predicates and the candidate list claim chooses from. A
+	// limit, a TTL or any other setting consulted there makes two agents on one store disagree about what is ready
+	for _, name := range []string{"isReady", "isBlocked", "isEpicComplete", "areEpicDepsComplete", "readyTasks", "getBlockers"} {
+		if f := c.ErgoFn(name); f != nil {
+			roots = append(roots, f)
+		}
+	}
+	for _, root := range roots {
+		if c.InModule(root) && root.Blocks != nil {
+			unit[root] = true
+		}
 		for g := range c.F.TransitiveCallees(root) {
 			if c.InModule(g) && g.Blocks != nil {
 				unit[g] = true
